@@ -3,7 +3,11 @@ Stage 1 shares the model (coq/theories/C02_Defs.v), the harness (harness/c02_sol
 machinery of tools/checks/c02.py.
 Stage 2 (C01Q, "quasi-Newton algebra"): the inverse-Hessian updates of src/solver/quasi.cpp and the two-loop recursion of
 src/solver/lbfgs.cpp as an exact-rational Coq model (coq/theories/C01Q_*.v, Properties_C01Q.v) tied to the
-ev_quasi_update / ev_lbfgs_direction hook events of the real solvers (harness/c01_quasi.cpp, ocaml/c01q_driver.ml)."""
+ev_quasi_update / ev_lbfgs_direction hook events of the real solvers (harness/c01_quasi.cpp, ocaml/c01q_driver.ml).
+Stage 3 (C01CG, "conjugate-gradient direction"): the ten beta formulas, the formula-per-solver-id table, the candidate
+direction, the restart test and the loop book-keeping of src/solver/cgd.cpp as a Coq model over ordered fields
+(coq/theories/C01CG_*.v, Properties_C01CG.v) tied to the ev_cgd_direction hook events of the ten real cgd solvers
+(harness/c01_cgd.cpp incl. scripted gradient oracles that hit the case splits exactly, ocaml/c01cg_driver.ml)."""
 import collections
 import json
 import os
@@ -32,57 +36,85 @@ MANIFEST = dict(
           "symmetry, positive definiteness by exact LDL', descent, history bound) are evaluated on the implementation's own "
           "numbers. Direct oracle with a recording wrapper function: the criterion recomputed at the returned point; "
           "L-BFGS/BFGS on random quadratics s*Q*diag*Q' (kappa<=1e3, n<=16) must converge within 1500 evaluations with the "
-          "error bound -- that clause is searched, not proved."),
+          "error bound -- that clause is searched, not proved. (4) the conjugate-gradient direction of cgd.cpp, over every "
+          "ordered field, all dimensions, any previous gradient/direction: the ten beta formulas as written, the formula each "
+          "solver id returns, the candidate -g + beta pd, the restart test !has_descent(d) || |g.pg| >= orthotest g.g "
+          "(translated from the source on every run), first-iteration branch and book-keeping; theorems: the CHOSEN direction "
+          "of every iteration of every run is a descent direction (the line search's refusal of non-descent directions is "
+          "unreachable from cgd); restarted => d = -g, else d = -g + beta pd and |g.pg| < orthotest g.g; FR = CD = DY and PR = "
+          "HS = LS after an exact line search; HS conjugacy d.y = 0; Dai-Yuan g.d = beta (pd.pg); |FRPR| <= FR; 0 <= DYHS <= "
+          "max(0, DY); 0 <= DYCD <= CD; N >= its clamp and Hager-Zhang's g.d <= -(7/8) g.g for the unclamped and the clamped "
+          "formula; on a strictly convex quadratic with exact line searches cg_step itself never restarts, all ten ids return "
+          "FR and consecutive directions are A-conjugate (induction over the run); refuted with witnesses: PR / FR / DY "
+          "candidates without the restart can be ascent directions. Tie: every ev_cgd_direction event of the ten cgd solvers "
+          "(natural runs + scripted small-integer gradient oracles that hit ties of the restart test and of every clamp "
+          "exactly) is recomputed by the extracted exact model (beta within 1e-9 of the running error bound, restart decision "
+          "exactly where binary64 is exact, direction within 2 ulp, loop book-keeping bitwise) and the proved clauses are "
+          "evaluated on the implementation's own numbers."),
     note=("Coq kernel; Flocq + FloatAxioms, Coq reals; translator; extraction (ExtrOcamlBasic + ExtrOCamlFloats; stage 2: "
           "ExtrOcamlZBigInt + Z.ggcd mapped to Zarith's gcd); harness + OCaml drivers; NANO_VERIF hooks in solver.cpp, "
-          "quasi.cpp, lbfgs.cpp (add-only); floating-point rounding of the Eigen linear algebra is outside the theorems "
+          "quasi.cpp, lbfgs.cpp, cgd.cpp (add-only); floating-point rounding of the Eigen linear algebra is outside the theorems "
           "(compared within 1e-9 of the running error bound); the curvature condition s'y > 0 is a property of the line "
-          "search, not of lbfgs.cpp/quasi.cpp (counted on every run); NDEBUG build."),
+          "search, not of lbfgs.cpp/quasi.cpp (counted on every run); the Euclidean norms read by cgd's N formula are inputs of "
+          "the model; cgd events with a non-finite beta (division by a zero inner product) are skipped and counted; NDEBUG build."),
     technique="Coq proof over an extracted trace acceptor + real-analysis bound + exact-rational linear algebra of the "
-              "quasi-Newton updates, trace acceptance of the instrumented solvers, differential correspondence, direct oracle",
+              "quasi-Newton updates and of the conjugate-gradient direction, trace acceptance of the instrumented solvers, "
+              "differential correspondence, direct oracle",
     design="DESIGN.md section 2, C01")
 
 VARIANTS = ["rel"]
 
 QHARNESS = "c01_quasi"
+CGHARNESS = "c01_cgd"
 
 
-def _build_qdriver():
+def _build_zdriver(name, modname):
     """the extracted model uses Zarith (ExtrOcamlZBigInt): private variant of vlib.build_ocaml (as C09/C14); the extracted
     module shadows Zarith's Z, which the driver reaches as ZZ"""
     odir = os.path.join(vlib.WORK, "ocaml")
     os.makedirs(odir, exist_ok=True)
-    exe = os.path.join(odir, "c01q_driver")
-    model = os.path.join(vlib.COQ, "extracted", "c01q_model.ml")
-    driver = os.path.join(vlib.ROOT, "ocaml", "c01q_driver.ml")
-    with vlib.Lock("ocaml-c01q_driver"):
+    exe = os.path.join(odir, "%s_driver" % name)
+    model = os.path.join(vlib.COQ, "extracted", "%s_model.ml" % name)
+    driver = os.path.join(vlib.ROOT, "ocaml", "%s_driver.ml" % name)
+    with vlib.Lock("ocaml-%s_driver" % name):
         srcs = [model, model + "i", driver]
         for s in srcs:
             if not os.path.exists(s):
                 raise vlib.CheckError("missing %s (extraction failed?)" % s)
         if os.path.exists(exe) and all(os.path.getmtime(s) <= os.path.getmtime(exe) for s in srcs):
             return exe
-        bd = os.path.join(odir, "c01q_driver.build")
+        bd = os.path.join(odir, "%s_driver.build" % name)
         vlib.sh("rm -rf %s && mkdir -p %s" % (shlex.quote(bd), shlex.quote(bd)))
         for s in (model, model + "i"):
             vlib.sh("cp %s %s/" % (shlex.quote(s), shlex.quote(bd)))
         with open(os.path.join(bd, "driver_main.ml"), "w") as f:
-            f.write("module ZZ = Z\nopen C01q_model\n# 1 \"c01q_driver.ml\"\n")
+            f.write("module ZZ = Z\nopen %s\n# 1 \"%s_driver.ml\"\n" % (modname, name))
             f.write(open(driver).read())
-        cmd = "ocamlfind ocamlopt -O3 -w -a -package zarith -linkpkg c01q_model.mli c01q_model.ml driver_main.ml -o %s" % shlex.quote(exe)
+        cmd = "ocamlfind ocamlopt -O3 -w -a -package zarith -linkpkg %s_model.mli %s_model.ml driver_main.ml -o %s" % (
+            name, name, shlex.quote(exe))
         rc, out = vlib.sh(cmd, cwd=bd, timeout=600)
         if rc != 0:
-            raise vlib.CheckError("ocaml build of c01q_driver failed:\n%s" % out[-3000:])
+            raise vlib.CheckError("ocaml build of %s_driver failed:\n%s" % (name, out[-3000:]))
     return exe
+
+
+def _build_qdriver():
+    return _build_zdriver("c01q", "C01q_model")
+
+
+def _build_cgdriver():
+    return _build_zdriver("c01cg", "C01cg_model")
 
 
 def setup():
     c02.setup()
     vlib.build_harness(QHARNESS, "rel")
-    try:
-        _build_qdriver()
-    except vlib.CheckError:
-        pass  # extraction not built yet: the stage builds it after coq_check
+    vlib.build_harness(CGHARNESS, "rel")
+    for build in (_build_qdriver, _build_cgdriver):
+        try:
+            build()
+        except vlib.CheckError:
+            pass  # extraction not built yet: the stage builds it after coq_check
 
 
 def _event(lines, rid, k):
@@ -233,6 +265,165 @@ def _merge(r, cres, stats, lines, mism, pf, fails, rc1, t0):
     return 1 if (rc1 or r.violations) else 0
 
 
+def _cg_event(lines, rid, k):
+    """the CRUN header and the k-th hook event of run rid (the replay of a conjugate-gradient violation)"""
+    hdr = [l for l in lines if l.startswith("CRUN %s " % rid)]
+    ev = [l for l in lines if l.startswith("CD %s %s " % (rid, k))]
+    return [l[:400] for l in hdr[:1]] + [l[:20000] for l in ev[:1]]
+
+
+def cgd_stage(tier):
+    """stage 3: Coq development C01CG + correspondence of the ev_cgd_direction events + the proved properties on the
+    implementation's own numbers"""
+    r = vlib.Run("C01", tier)
+    cres = vlib.coq_check("C01CG", targets=["theories/Extract_C01CG.vo", "theories/Properties_C01CG.vo"])
+    exe = vlib.build_harness(CGHARNESS, "rel")
+    drv = None
+    try:
+        drv = _build_cgdriver()
+    except (vlib.CheckError, OSError):
+        if cres["ok"]:
+            raise
+    rc, out = vlib.sh([exe, tier], timeout=3000, env={"VERIF_SEED": str(r.seed)})
+    lines = [l for l in out.split("\n") if l]
+    done = [l for l in lines if l.startswith("DONE ")]
+    fails = [l for l in lines if l.startswith("FAIL ")]
+    replay_cmd = "VERIF_SEED=%d %s %s" % (r.seed, exe, tier)
+    if rc != 0 or not done:
+        last = [l[:300] for l in lines if l.startswith("CRUN ")][-1:]
+        r.violation("cgd-crash", {"kind": "implementation crashed / did not terminate (exit %s)" % rc, "last_run": last,
+                                  "tail": [l[:400] for l in lines[-6:]], "replay_cmd": replay_cmd}, fingerprint="cgd-crash")
+    for i, l in enumerate(fails[:3]):
+        r.violation("cgd-impl-%d" % i, {"kind": "hook event layout check failed / solver id missing", "what": l[:1000],
+                                        "replay_cmd": replay_cmd})
+    stats = {}
+    mism, pf = [], []
+    if drv:
+        feed = "\n".join(l for l in lines if l.startswith(("CRUN ", "CD "))) + "\n"
+        rc2, mout = vlib.sh([drv], input=feed, timeout=3000)
+        for l in mout.split("\n"):
+            if l.startswith("MISMATCH"):
+                mism.append(l)
+            elif l.startswith("PROPFAIL"):
+                pf.append(l)
+            elif l.startswith("MODEL-DONE"):
+                stats = {k: int(v) for k, v in re.findall(r"(\w+)=(\d+)", l)}
+        if rc2 != 0 or not stats.get("checked"):
+            r.violation("cgd-driver", {"kind": "model driver failed", "out": mout[-2000:]}, no_input=True)
+
+        def report(tag, kind, group):
+            seen = set()
+            for l in group:
+                what = l.split(" ", 2)[1]
+                if what in seen or len(seen) >= 3:
+                    continue
+                seen.add(what)
+                m = re.search(r"RUN (\d+) EV (\d+)", l)
+                rid, k = (m.group(1), m.group(2)) if m else ("?", "?")
+                same = [x for x in group if x.split(" ", 2)[1] == what]
+                r.violation("cgd-%s-%s" % (tag, what[:30]),
+                            {"kind": kind, "what": l[:3000], "cases_of_this_kind": len(same), "event": _cg_event(lines, rid, k),
+                             "replay_cmd": "%s %s | grep -E '^(CRUN|CD) ' | %s" % (replay_cmd, rid, drv)})
+        # a proved property of the direction that fails on the implementation's own numbers: concrete failing input
+        report("prop", "a proved property of the conjugate-gradient direction (descent, restart => -g, no restart => gradients "
+                       "nearly orthogonal, clamps, identities) fails on the numbers the implementation produced (exact "
+                       "arithmetic on the recorded doubles)", pf)
+        # the recorded beta / restart decision / direction / loop book-keeping leaves the modelled (proved) computation
+        report("corr", "the implementation's beta / restart decision / direction / previous-state book-keeping differs from "
+                       "the extracted model of cgd.cpp on this very input", mism)
+    if not cres["ok"] and not r.violations:
+        r.violation("cgd-proof", {"kind": "broken-proof-obligation", "obligation": cres["broken"],
+                                  "log_tail": cres["log"][-3000:]}, no_input=True)
+    return r, cres, stats, lines, mism, pf, fails
+
+
+def _merge_cg(r, cres, stats, lines, mism, pf, fails, rc1, t0):
+    """fold stage 3 into evidence/C01.json"""
+    path = os.path.join(vlib.OUTDIR, "evidence", "C01.json")
+    try:
+        ev = json.load(open(path))
+    except (OSError, ValueError):
+        ev = {"property_id": "C01", "tier": r.tier, "seed": r.seed, "level": "proof", "coverage": {}, "assumptions": [],
+              "wall_s": 0, "violations": 0}
+    cov = ev.setdefault("coverage", {})
+    nk = len(cres.get("kernels", []))
+    cov["obligations"] = cov.get("obligations", 0) + len(cres["theorems"]) + nk
+    cov["discharged"] = cov.get("discharged", 0) + cres["discharged"] + (nk if not cres.get("translator_failed") else 0)
+    cov["theorems"] = list(cov.get("theorems", [])) + list(cres["theorems"])
+    cov["translated_kernels"] = list(cov.get("translated_kernels", [])) + list(cres.get("kernels", []))
+    cov["checker_cmd"] = (cov.get("checker_cmd", "") + " ; make -C coq theories/Properties_C01CG.vo && coqc theories/Properties_C01CG.v "
+                          "(Print Assumptions)").strip(" ;")
+    tb = list(cov.get("trusted_base", []))
+    for a in ["axiom: " + a for a in cres["axioms"]] + [
+            "tools/translate.py (35 kernels of cgd.cpp / state.h: the restart test, has_descent / dg, the first-iteration test, "
+            "the two FRPR tests; the shape of every beta formula, clamp, the candidate direction, the formula each solver id "
+            "returns)",
+            "extraction of the conjugate-gradient model: ExtrOcamlBasic + ExtrOcamlZBigInt, Z.ggcd mapped to Zarith's gcd",
+            "ocaml/c01cg_driver.ml (exact double->Q conversion, running-error tolerance, exactness test of binary64 inner "
+            "products), harness/c01_cgd.cpp (scripted gradient oracle)",
+            "NANO_VERIF hook ev_cgd_direction (cgd.cpp, /repo b097245, add-only)"]:
+        if a not in tb:
+            tb.append(a)
+    cov["trusted_base"] = tb
+    cov["coq_files"] = sorted(set(list(cov.get("coq_files", [])) + list(cres.get("files", []))))
+    if r.tier == "thorough" and cres.get("ok"):
+        r.pid = "C01CG"
+        try:
+            vlib.coqchk_recheck(r)
+        finally:
+            r.pid = "C01"
+        cov["coqchk_C01CG"] = r.coverage.pop("coqchk", None)
+    solvers = collections.Counter()
+    funcs = collections.Counter()
+    dims = collections.Counter()
+    pairs = collections.Counter()
+    for l in lines:
+        if l.startswith("CRUN "):
+            kind = re.search(r"kind=(\S+)", l).group(1)
+            solvers[re.search(r"solver=(\S+)", l).group(1) + "/" + kind] += 1
+            funcs[re.search(r"func=([^\[ ]+)", l).group(1)] += 1
+            dims[re.search(r" n=(\d+)", l).group(1)] += 1
+            pairs[re.search(r"ls0=(\S+)", l).group(1) + "+" + re.search(r"lsk=(\S+)", l).group(1)] += 1
+    q = {k: v for k, v in stats.items() if k not in ("checked", "mismatches", "propfails")}
+    cov["cgd_events_checked"] = stats.get("checked", 0)
+    cov["cgd_model_stats"] = q
+    cov["cgd_mismatches"] = len(mism)
+    cov["cgd_property_failures"] = len(pf)
+    cov["cgd_impl_direct_failures"] = len(fails)
+    cov["cgd_solver_histogram"] = dict(solvers)
+    cov["cgd_function_histogram"] = dict(funcs.most_common(40))
+    cov["cgd_dims_histogram"] = dict(dims)
+    cov["cgd_lsearch_histogram"] = dict(pairs)
+    cov["cgd_rule"] = ("the ten cgd solvers x (natural: 2 of 3 the quadratic class s*Q*diag*Q', 1 of 3 a registered smooth function; "
+                       "n in {1,..,32}; orthotest in {0.1} u log-uniform [1e-6,1e-1] u 1-log-uniform[1e-9,0.5] u uniform(0,1); "
+                       "cgdN::eta in {0.01} u log-uniform [1e-6,1e5]; every second run a random lsearch0 x lsearchk pair; first 30 "
+                       "(thorough: 60) events of a run) + (scripted: gradients of small integers -2..2 / -3..3 / -6..6, n = 1..4, "
+                       "4..14 iterations, dyadic orthotest, eta in {2^-7, 64}, Armijo backtracking accepting every first trial: "
+                       "all inner products exact in binary64); all from VERIF_SEED. evaluations below = hook events recomputed")
+    cov["evaluations"] = cov.get("evaluations", 0) + stats.get("checked", 0)
+    cov["cgd_samples"] = [l[:300] for l in lines if l.startswith(("CRUN 0 ", "CD 0 0 ", "CRUN 60 ", "CD 60 1 "))][:4]
+    cov["unproved_clauses_searched"] = list(cov.get("unproved_clauses_searched", [])) + [
+        "floating point: |recorded beta - exact beta of the solver's formula| and |recorded d - direction of the exact model| "
+        "<= 1e-9 * running error bound; d = -g + beta * pd elementwise within 2 ulp of binary64 evaluation (bit-exact so far)",
+        "the restart decision of the implementation equals the model's on every event whose compared quantities are outside "
+        "the rounding band of the two thresholds (exactly compared, ties included, when every operation behind the decision "
+        "is exact in binary64); events inside the band are counted (restart_ambiguous)",
+        "previous g / previous d of every event are g / chosen d of the previous event; the first direction is -g"]
+    ev["assumptions"] = list(ev.get("assumptions", [])) + [
+        "conjugate-gradient stage: exact arithmetic (the theorems are over ordered fields; rounding is compared, not proved); "
+        "the two Euclidean norms of the N formula are inputs of the model",
+        "hook events with a non-finite beta (division by a zero inner product) are skipped and counted, except "
+        "`restarted => d == -g`"]
+    ev["violations"] = ev.get("violations", 0) + len(r.violations)
+    ev["wall_s"] = round(time.time() - t0, 2)
+    json.dump(ev, open(path, "w"), indent=1, default=str)
+    for fp, what in r.known_hits:
+        print("KNOWN-FINDING: property=C01 %s" % what)
+    for p, note in r.violations[:5]:
+        print(("VIOLATION property=C01 replay=%s %s" % (p, note)).rstrip())
+    return 1 if (rc1 or r.violations) else 0
+
+
 def run(tier, replay=None):
     t0 = time.time()
     rc1 = c02.run_shared(
@@ -256,4 +447,12 @@ def run(tier, replay=None):
         r = vlib.Run("C01", tier)
         r.violation("quasi-build", {"kind": "build-failure", "detail": str(ex)[-4000:]}, no_input=True)
         res = (r, {"theorems": [], "discharged": 0, "axioms": [], "kernels": [], "ok": False}, {}, [], [], [], [])
-    return _merge(*res, rc1, t0)
+    rc2 = _merge(*res, rc1, t0)
+    try:
+        res3 = cgd_stage(tier)
+    except vlib.CheckError as ex:
+        # the conjugate-gradient machinery could not be rebuilt against the working tree: the tie is broken
+        r = vlib.Run("C01", tier)
+        r.violation("cgd-build", {"kind": "build-failure", "detail": str(ex)[-4000:]}, no_input=True)
+        res3 = (r, {"theorems": [], "discharged": 0, "axioms": [], "kernels": [], "ok": False}, {}, [], [], [], [])
+    return _merge_cg(*res3, rc2, t0)
